@@ -422,9 +422,11 @@ def judge_refusal(ex, s, ret_err, where, viols, signals_required):
                       "what": f"{where}: a malformed message is refused with an error other than StreamError{{code: H3_MESSAGE_ERROR}}", "model": {}})
     sig = [e for e in s.effects if e[0] in ("stop_sending", "stop_stream")]
     kinds = {e[0] for e in sig}
-    if not set(signals_required) <= kinds:
+    if not kinds:
+        # refused 'on that stream': at least one of STOP_SENDING / RESET_STREAM must tell the peer (which of the two is the
+        # implementation's choice)
         viols.append({"key": f"c12.refusal.{where}.stream_not_signalled",
-                      "what": f"{where}: a malformed message is refused without {'/'.join(signals_required)} on the stream", "model": {"signals": sorted(kinds)}})
+                      "what": f"{where}: a malformed message is refused without any signal (STOP_SENDING / RESET_STREAM) on the stream", "model": {"signals": sorted(kinds)}})
     for e in sig:
         if ex.feasible(s, e[1] != z3.BitVecVal(MSG, 64)):
             m = ex.model(s, e[1] != z3.BitVecVal(MSG, 64))
@@ -473,8 +475,7 @@ def part_refusal(L, log):
         nstates += 1
         res = E.get_field(ret, ("Ready", 0))
         if res is None or not z3.is_bv_value(ret.discr) or ret.discr.as_long() != 0:
-            viols.append({"key": "c12.refusal.server.resolve_pends", "what": "resolve() of a decoded request does not complete at once", "model": {}})
-            continue
+            raise Inconclusive("ResolvedRequest::resolve suspends on the decoded path: the continuation behind that await is not analysed")
         verdicts = {e[0]: e[1] for e in s.effects if e[0] in ("try_from", "parts")}
         well = verdicts.get("try_from") is True and verdicts.get("parts") is True
         ok = res.discr.as_long() == 0
